@@ -1,6 +1,7 @@
 package composite
 
 import (
+	"strings"
 	"fmt"
 
 	"k8s.io/apimachinery/pkg/runtime"
@@ -18,6 +19,7 @@ var kidPool = []kidSpec{
 }
 
 type gen struct {
+	oddMethods bool // C06 only: child kinds with an update method the controller does not know
 	r   *vh.Rng
 	adv bool
 }
@@ -70,6 +72,14 @@ func (g *gen) basic(family string, i int, seed uint64) *scenario {
 	for j := 0; j < nk && j < len(perm); j++ {
 		k := kidPool[perm[j]]
 		k.Method = plainMethods[r.Intn(len(plainMethods))]
+		switch r.Intn(12) {
+		case 0:
+			k.Method, k.EmptyStrategy = "", true // a strategy block without a method: the default (OnDelete) applies
+		case 1:
+			if g.oddMethods {
+				k.Method = "Replace" // not a method the controller knows: every sync of a differing child reports an error
+			}
+		}
 		ctl.Kids = append(ctl.Kids, k)
 	}
 	if r.Chance(1, 5) {
@@ -248,8 +258,16 @@ func (g *gen) basic(family string, i int, seed uint64) *scenario {
 			o["metadata"].(J)["labels"] = J{"app": "zzz"}
 			sc.Features = append(sc.Features, "nonmatching-orphan")
 		}
+		plainOwner := r.Chance(1, 5)
 		ons, _ := o["metadata"].(J)["namespace"].(string)
 		sc.Setup = append(sc.Setup, extOp{Op: "create", APIVersion: k.APIVersion, Kind: k.Kind, Namespace: ons, Name: fmt.Sprintf("x%d", j), Data: o})
+		if plainOwner {
+			// a matching look-alike that somebody else controls and that names our parent as a plain owner (GC-only idiom)
+			pr := sc.parentRef()
+			sc.Setup = append(sc.Setup, extOp{Op: "plainowner", APIVersion: k.APIVersion, Kind: k.Kind, Namespace: ons, Name: fmt.Sprintf("x%d", j),
+				Data: J{"apiVersion": pr.APIVersion, "kind": pr.Kind, "namespace": pr.Namespace, "name": pr.Name}})
+			sc.Features = append(sc.Features, "foreign-controlled-lists-parent-as-owner")
+		}
 	}
 	nr := 1 + r.Intn(3)
 	for j := 0; j < nr; j++ {
@@ -833,6 +851,13 @@ func (g *gen) rollout(i int, seed uint64, fair bool) *scenario {
 	if r.Chance(1, 4) {
 		k2 := kidPool[1-indexOfKid(kid)]
 		k2.Method = plainMethods[r.Intn(len(plainMethods))]
+		if r.Bool() {
+			// a second rolling kind with a strategy of its own
+			k2.Method = []string{"RollingInPlace", "RollingRecreate"}[r.Intn(2)]
+			if len(kid.Checks) == 0 {
+				k2.Checks = []condCheck{{Type: "Ready", Status: &ready}}
+			}
+		}
 		ctl.Kids = append(ctl.Kids, k2)
 	}
 	switch r.Intn(4) {
@@ -864,6 +889,18 @@ func (g *gen) rollout(i int, seed uint64, fair bool) *scenario {
 		sc.Features = append(sc.Features, "children-without-labels")
 	}
 	sc.Hook = hookProgram{Kind: "template", Children: []J{{"apiVersion": kid.APIVersion, "kind": kid.Kind, "metadata": tmd, "spec": J{}}}}
+	secondRolling := len(ctl.Kids) > 1 && strings.HasPrefix(ctl.Kids[1].Method, "Rolling")
+	if secondRolling {
+		k2 := ctl.Kids[1]
+		tmd2 := runtime.DeepCopyJSON(tmd)
+		tmd2["name"] = "d"
+		delete(tmd2, "namespace")
+		if !namespaced && k2.Namespaced {
+			tmd2["namespace"] = "ns2"
+		}
+		sc.Hook.Children = append(sc.Hook.Children, J{"apiVersion": k2.APIVersion, "kind": k2.Kind, "metadata": tmd2, "spec": J{}})
+		sc.Features = append(sc.Features, "two-rolling-kinds")
+	}
 	switch r.Intn(4) {
 	case 0:
 		sc.Hook.OmitStatus = true
@@ -881,6 +918,13 @@ func (g *gen) rollout(i int, seed uint64, fair bool) *scenario {
 	sc.Warmup = true
 	// after the warm-up: everything healthy, then the spec changes
 	healthy := extOp{Op: "healthy-all", APIVersion: kid.APIVersion, Kind: kid.Kind, Data: J{"reason": "Healthy"}}
+	if secondRolling {
+		healthy.Data["alsoAPIVersion"], healthy.Data["alsoKind"] = ctl.Kids[1].APIVersion, ctl.Kids[1].Kind
+	}
+	relabelTemplate := !ctl.GenSelector && r.Chance(1, 4)
+	if relabelTemplate {
+		sc.Features = append(sc.Features, "template-labels-change-with-spec")
+	}
 	switch r.Intn(6) {
 	case 0:
 		healthy.Data["noObservedGeneration"] = true
@@ -890,7 +934,7 @@ func (g *gen) rollout(i int, seed uint64, fair bool) *scenario {
 	}
 	if len(kid.Checks) == 0 && r.Bool() {
 		// a kind without status checks whose objects report nothing at all (ConfigMap-like)
-		healthy.Data = J{"bare": true}
+		healthy.Data["bare"] = true
 		sc.Features = append(sc.Features, "children-without-status")
 	}
 	sickly := extOp{Op: "healthy-all", APIVersion: kid.APIVersion, Kind: kid.Kind, Data: J{"reason": "CrashLoopBackOff"}}
@@ -904,11 +948,24 @@ func (g *gen) rollout(i int, seed uint64, fair bool) *scenario {
 		if note != "" {
 			spec["note"] = note
 		}
+		if relabelTemplate {
+			// the spec change also changes a label of the template (the selector still matches both)
+			if t, ok := spec["template"].(map[string]interface{}); ok {
+				if tm, ok := t["metadata"].(map[string]interface{}); ok {
+					if tl, ok := tm["labels"].(map[string]interface{}); ok {
+						tl["release"] = image
+					}
+				}
+			}
+		}
 		e.Data = J{"spec": spec}
 		return e
 	}
 	sc.Setup = append(sc.Setup, edit("v2", nrep, ""))
 	nr := int(2*nrep) + 3
+	if secondRolling {
+		nr = int(4*nrep) + 5 // two kinds roll one child at a time
+	}
 	for j := 0; j < nr; j++ {
 		rs := roundSpec{}
 		if fair || r.Chance(2, 3) {
@@ -1055,6 +1112,11 @@ func (g *gen) converge(i int, seed uint64) *scenario {
 	for _, k := range sc.Ctl.Kids {
 		healthy = append(healthy, extOp{Op: "healthy-all", APIVersion: k.APIVersion, Kind: k.Kind, Data: J{"reason": "Healthy"}})
 	}
+	for ki := range sc.Ctl.Kids {
+		if sc.Ctl.Kids[ki].Method == "Replace" {
+			sc.Ctl.Kids[ki].Method = "" // a method the controller does not know is a configuration error: every sync fails, by design
+		}
+	}
 	// hook programs with a known finding (echo, integral float, parent named as owner) are kept to a small
 	// share of the family: a case that carries such a feature is excused for that finding's symptom
 	if sc.Hook.PlainOwnerRef && r.Chance(5, 8) {
@@ -1092,6 +1154,23 @@ func (g *gen) converge(i int, seed uint64) *scenario {
 		healthy = nil // nobody writes a status into the children: they stay as the controller made them
 		sc.Features = append(sc.Features, "children-report-no-status")
 	}
+	replaced := false
+	if sc.Ctl.SSA && sc.Hook.Kind == "const" && len(sc.Hook.Children) > 0 && r.Bool() {
+		// the hook first wants one thing, then another (the child is applied twice); later the child is
+		// replaced behind the controller's back by a drifted new incarnation (generation 1 again)
+		sc.Warmup = true
+		h1 := sc.Hook
+		h1.Children = nil
+		for _, c := range sc.Hook.Children {
+			c1 := runtime.DeepCopyJSON(c)
+			c1["spec"].(map[string]interface{})["replicas"] = int64(7)
+			h1.Children = append(h1.Children, c1)
+		}
+		h2 := sc.Hook
+		sc.Hook, sc.Hook2 = h1, &h2
+		replaced = true
+		sc.Features = append(sc.Features, "child-replaced-by-drifted-incarnation")
+	}
 	unmatch := false
 	if r.Chance(1, 8) && sc.Ctl.CtlSelector == nil {
 		// the parent stops matching the controller's label selector: the finalize hook cleans up
@@ -1106,6 +1185,14 @@ func (g *gen) converge(i int, seed uint64) *scenario {
 	n := 6 + 2*len(sc.Hook.Children)
 	for j := 0; j < n; j++ {
 		rs := roundSpec{PreOps: healthy}
+		if replaced && j == 3 {
+			for _, ref := range sc.childRefs() {
+				d := ref
+				d.Op, d.Data = "replace-drifted", J{"spec": J{"replicas": int64(99), "image": "drifted"}}
+				rs.PreOps = append(append([]extOp{}, rs.PreOps...), d)
+				break
+			}
+		}
 		if unmatch && j == 3 {
 			ref := sc.parentRef()
 			ref.Op, ref.Data = "relabel", J{"managed": "no"}
@@ -1116,12 +1203,34 @@ func (g *gen) converge(i int, seed uint64) *scenario {
 	return sc
 }
 
+// childRefs: where the hook's children live in the store
+func (sc *scenario) childRefs() []extOp {
+	pns, _ := sc.Parent["metadata"].(J)["namespace"].(string)
+	var out []extOp
+	for _, c := range sc.Hook.Children {
+		md := c["metadata"].(J)
+		ns, _ := md["namespace"].(string)
+		k := resByKind(c["apiVersion"].(string), c["kind"].(string))
+		if k == nil {
+			continue
+		}
+		if ns == "" && k.Namespaced {
+			ns = pns
+		}
+		if !k.Namespaced {
+			ns = ""
+		}
+		out = append(out, extOp{APIVersion: c["apiVersion"].(string), Kind: c["kind"].(string), Namespace: ns, Name: md["name"].(string)})
+	}
+	return out
+}
+
 func generateScenarios(prop string, seed uint64, n int, adv bool) []*scenario {
 	root := vh.NewRng(seed ^ 0xc0de)
 	var out []*scenario
 	for i := 0; i < n; i++ {
 		r, s := root.Fork()
-		g := &gen{r: r, adv: adv}
+		g := &gen{r: r, adv: adv, oddMethods: prop == "C06"}
 		switch {
 		case prop == "C02" && i%2 == 1:
 			out = append(out, g.race(i, s))
@@ -1197,6 +1306,46 @@ func generateScenarios(prop string, seed uint64, n int, adv bool) []*scenario {
 			out = append(out, g.adoptrace(i, s))
 		case prop == "C10" && i%8 == 1:
 			out = append(out, g.rolloutFinalize(i, s))
+		case (prop == "C04" || prop == "C02") && i%16 == 12:
+			// the ownership edit (adopt / release) meets a conflict, and before the retry the object is
+			// replaced by a new incarnation under the same name
+			sc := g.adoptrace(i, s)
+			for ri := range sc.Rounds {
+				sc.Rounds[ri].LateOps, sc.Rounds[ri].MidOps = nil, nil
+			}
+			for _, ref := range sc.childRefs() {
+				re := ref
+				re.Op = "recreate"
+				sc.Rounds[0].FaultOn = append(sc.Rounds[0].FaultOn, faultOn{Verb: "update", Kind: ref.Kind, Nth: 0,
+					Fault: J{"code": 409, "reason": "Conflict"}, Ops: []extOp{re}})
+				break
+			}
+			sc.Features = append(sc.Features, "conflict-then-replaced-before-retry")
+			out = append(out, sc)
+		case prop == "C04" && i%16 == 8:
+			// one controller instance; between two syncs the parent's selector is edited in place (same UID)
+			sc := g.basic("selector-edit", i, s)
+			sc.Warmup, sc.Setup, sc.LongLived = true, nil, true
+			sc.Ctl.GenSelector = false
+			e := sc.parentRef()
+			spec := runtime.DeepCopyJSON(sc.Parent["spec"].(J))
+			spec["selector"] = J{"matchLabels": J{"app": "edited"}}
+			e.Op, e.Data = "edit", J{"spec": spec}
+			pre := []extOp{e}
+			// an orphan that matches the new selector, and one that matches the old
+			for _, ref := range sc.childRefs() {
+				if c := sc.Hook.Children[0]; c != nil {
+					o := runtime.DeepCopyJSON(c)
+					o["metadata"].(map[string]interface{})["name"] = "fresh"
+					o["metadata"].(map[string]interface{})["namespace"] = ref.Namespace
+					o["metadata"].(map[string]interface{})["labels"] = J{"app": "edited"}
+					pre = append(pre, extOp{Op: "create", APIVersion: ref.APIVersion, Kind: ref.Kind, Namespace: ref.Namespace, Name: "fresh", Data: o})
+				}
+				break
+			}
+			sc.Rounds = []roundSpec{{}, {PreOps: pre}, {}}
+			sc.Features = []string{"long-lived-controller", "selector-edited-in-place"}
+			out = append(out, sc)
 		case prop == "C04" && i%8 == 4:
 			// orphaned ControllerRevisions to adopt while the live parent is gone, dying or replaced
 			sc := g.rollout(i, s, true)
@@ -1223,8 +1372,25 @@ func generateScenarios(prop string, seed uint64, n int, adv bool) []*scenario {
 			out = append(out, sc)
 		case prop == "C04" && i%2 == 1:
 			out = append(out, g.adoptrace(i, s))
+		case prop == "C10" && i%16 == 2:
+			// the request that adds the finalizer keeps meeting conflicts
+			sc := g.basic("lifecycle", i, s)
+			sc.Ctl.Finalize, sc.Warmup, sc.Setup = true, false, nil
+			var fo []faultOn
+			for x := 0; x < 6; x++ {
+				fo = append(fo, faultOn{Verb: "update", Kind: sc.Ctl.ParentKind, Nth: x, Fault: J{"code": 409, "reason": "Conflict"}})
+			}
+			sc.Rounds = []roundSpec{{FaultOn: fo}, {}}
+			sc.Features = []string{"finalizer-add-meets-conflicts"}
+			out = append(out, sc)
 		case prop == "C10" && i%4 != 0:
 			out = append(out, g.lifecycle(i, s))
+		case prop == "C11" && i%8 == 0:
+			// parents being finalized: the finalize hook's status is written like any other
+			sc := g.lifecycle(i, s)
+			sc.Ctl.Finalize = true
+			sc.Hook.Status, sc.Hook.NullStatus = J{"phase": "CleaningUp", "left": int64(len(sc.Hook.Children))}, false
+			out = append(out, sc)
 		case prop == "C11" && i%4 != 0:
 			out = append(out, g.statusy(i, s))
 		case prop == "C07":
@@ -1262,11 +1428,29 @@ func generateScenarios(prop string, seed uint64, n int, adv bool) []*scenario {
 					sc.Features = append(sc.Features, "crash-cut")
 				}
 			}
+			if r.Chance(1, 3) {
+				refs := sc.childRefs()
+				if len(refs) > 0 {
+					d := refs[0]
+					d.Op = "delete"
+					d.Name = fmt.Sprintf("%s%d", d.Name, r.Intn(3))
+					at2 := 1 + r.Intn(2)
+					if at2 < len(sc.Rounds) {
+						sc.Rounds[at2].PreOps = append(sc.Rounds[at2].PreOps, d)
+						sc.Features = append(sc.Features, "child-deleted-mid-rollout")
+					}
+				}
+			}
 			// room to recover
 			healthy := sc.Rounds[len(sc.Rounds)-1].PreOps
 			for x := 0; x < 4; x++ {
 				sc.Rounds = append(sc.Rounds, roundSpec{PreOps: healthy})
 			}
+			out = append(out, sc)
+		case prop == "C17" && i%14 == 13:
+			sc := g.basic("basic", i, s)
+			sc.Warmup, sc.SSAAfterWarmup = true, true
+			sc.Features = append(sc.Features, "ssa-after-dynamic-apply")
 			out = append(out, sc)
 		case prop == "C17":
 			switch i % 7 {
@@ -1331,6 +1515,19 @@ func generateScenarios(prop string, seed uint64, n int, adv bool) []*scenario {
 				sc.Hook = h2
 			}
 			out = append(out, sc)
+		case prop == "C12" && i%12 == 0:
+			// a finalizing sync whose finalizer removal finds the parent gone (404 on its read or its write)
+			sc := g.lifecycle(i, s)
+			sc.Family = "faults"
+			sc.Ctl.Finalize = true
+			sc.Hook.FinalizedAlways = true
+			for ri := range sc.Rounds {
+				sc.Rounds[ri].Faults = nil
+				sc.Rounds[ri].FaultOn = append(sc.Rounds[ri].FaultOn, faultOn{Verb: []string{"get", "update"}[r.Intn(2)], Kind: sc.Ctl.ParentKind,
+					AfterHook: true, Nth: 0, Fault: J{"code": 404, "reason": "NotFound"}})
+			}
+			sc.Features = append(sc.Features, "parent-gone-at-finalizer-removal")
+			out = append(out, sc)
 		case prop == "C12" && i%12 == 6:
 			// a rolling-update controller (the ControllerRevision path of the hook calls) whose hook says 429
 			sc := g.rollout(i, s, true)
@@ -1364,6 +1561,10 @@ func generateScenarios(prop string, seed uint64, n int, adv bool) []*scenario {
 				sc.Hook.Status = J{"conditions": J{"type": "Updated"}}
 			case 3:
 				sc.Hook.Status, sc.Hook.OmitStatus, sc.Hook.NullStatus = nil, true, false // no status at all
+				if r.Bool() {
+					sc.Hook.EmptyForImage = "v1" // the older revision's answer no longer lists the children it still claims
+					sc.Features = append(sc.Features, "old-revision-answer-omits-claimed-children")
+				}
 			default:
 				sc.Hook.Status, sc.Hook.OmitStatus, sc.Hook.NullStatus = nil, false, true // status: null
 			}
